@@ -1616,17 +1616,32 @@ mod c10_draw {
         fn close(&mut self) {}
     }
 
-    fn build_font(glyphs: &[GlyphIn], axis_count: usize) -> Result<Vec<u8>, String> {
+    /// `comps[g] = Some(components)` makes glyph g a composite of (glyph id, x offset, y offset) references (no transform);
+    /// its GlyphIn then carries one coordinate per component (+ 4 phantoms) and the component-offset deltas.
+    fn build_font(glyphs: &[GlyphIn], comps: &[Option<Vec<(usize, i64, i64)>>], axis_count: usize) -> Result<Vec<u8>, String> {
         let gvar_bytes = match build_gvar(glyphs, axis_count as u16) {
             Ok(Ok(b)) => b,
             other => return Err(format!("gvar: {:?}", other.map(|r| r.map(|b| b.len())))),
         };
         let glyphs = glyphs.to_vec();
+        let comps = comps.to_vec();
         catch(move || -> Result<Vec<u8>, String> {
             let mut gb = GlyfLocaBuilder::new();
             let mut metrics = vec![];
-            for g in &glyphs {
+            for (g, comp) in glyphs.iter().zip(&comps) {
                 let npts = g.coords.len() - 4;
+                if let Some(cs) = comp {
+                    use write_fonts::tables::glyf::{Anchor, Component, ComponentFlags, CompositeGlyph, Transform};
+                    let bb = Bbox { x_min: 0, y_min: 0, x_max: 0, y_max: 0 };
+                    let mk = |c: &(usize, i64, i64)| Component::new(write_fonts::types::GlyphId16::new(c.0 as u16), Anchor::Offset { x: c.1 as i16, y: c.2 as i16 }, Transform::default(), ComponentFlags::default());
+                    let mut cg = CompositeGlyph::new(mk(&cs[0]), bb);
+                    for c in &cs[1..] {
+                        cg.add_component(mk(c), bb);
+                    }
+                    metrics.push(hmtx::LongMetric::new(g.coords[npts + 1].0 as u16, 0));
+                    gb.add_glyph(&cg).map_err(|e| format!("{e}"))?;
+                    continue;
+                }
                 let mut contours = vec![];
                 let mut start = 0;
                 for &e in &g.ends {
@@ -1654,8 +1669,8 @@ mod c10_draw {
             let mut mx = maxp::Maxp::new(glyphs.len() as u16);
             mx.max_points = Some(400);
             mx.max_contours = Some(40);
-            mx.max_composite_points = Some(0);
-            mx.max_composite_contours = Some(0);
+            mx.max_composite_points = Some(2000);
+            mx.max_composite_contours = Some(200);
             mx.max_zones = Some(1);
             mx.max_twilight_points = Some(0);
             mx.max_storage = Some(0);
@@ -1663,8 +1678,8 @@ mod c10_draw {
             mx.max_instruction_defs = Some(0);
             mx.max_stack_elements = Some(0);
             mx.max_size_of_instructions = Some(0);
-            mx.max_component_elements = Some(0);
-            mx.max_component_depth = Some(0);
+            mx.max_component_elements = Some(8);
+            mx.max_component_depth = Some(2);
             let mut hh = hhea::Hhea::default();
             hh.number_of_h_metrics = glyphs.len() as u16;
             let hm = hmtx::Hmtx::new(metrics, vec![]);
@@ -1735,7 +1750,7 @@ mod c10_draw {
         for (name, tuples) in [("control", vec![b.clone()]), ("with-all-optional-tuple", vec![a, b.clone()])] {
             st.evaluations += 1;
             let g = GlyphIn { coords: coords.clone(), ends: ends.clone(), tuples };
-            let Ok(bytes) = build_font(&[g], 1) else {
+            let Ok(bytes) = build_font(&[g], &[None], 1) else {
                 st.oracle_failure(json!({"key": format!("draw:repro-{}", name), "what": "cannot build"}));
                 continue;
             };
@@ -1756,16 +1771,57 @@ mod c10_draw {
         }
     }
 
+    /// exact meaning of a glyph's variation data at a location: per point/entry sum of scalar * (stored or inferred) delta,
+    /// the allowed |drawn - exact| (final rounding + 16.16 arithmetic + tolerance of optional deltas), number of active tuples
+    fn exact_sum(g: &GlyphIn, loc: &[i16], infer: bool) -> (Vec<(Fr, Fr)>, f64, usize) {
+        let n = g.coords.len();
+        let mut sum: Vec<(Fr, Fr)> = vec![(Fr::int(0), Fr::int(0)); n];
+        let mut active = 0;
+        let mut slack = 0.5 + 0.02;
+        for t in &g.tuples {
+            let Some(s) = tent_scalar(&t.tents, loc) else { continue };
+            active += 1;
+            let dense = t.deltas.iter().all(|d| d.required);
+            // what the compiled table means: stored values equal the inputs; for omitted points the meaning is the
+            // specification's inference from the retained ones
+            let inf = if dense || !infer {
+                vec![]
+            } else {
+                let retained: Vec<Option<(i64, i64)>> = t.deltas.iter().map(|d| d.required.then_some((d.x as i64, d.y as i64))).collect();
+                infer_all(&g.coords, &retained, &g.ends)
+            };
+            for i in 0..n {
+                let d = if dense || !infer || t.deltas[i].required { (Fr::int(t.deltas[i].x as i128), Fr::int(t.deltas[i].y as i128)) } else { inf[i] };
+                sum[i] = (sum[i].0.add(s.mul(d.0)), sum[i].1.add(s.mul(d.1)));
+            }
+            // 16.16 arithmetic: the scalar is rounded per axis (<= 2^-17 each, relative to the delta) and so is the product
+            let maxd = t.deltas.iter().map(|d| (d.x as f64).abs().max((d.y as f64).abs())).fold(0.0, f64::max);
+            slack += maxd * (loc.len() as f64 + 1.0) / 65536.0;
+            // dense-or-sparse ambiguity: a tuple stored densely although some deltas are optional carries the (rounded)
+            // input delta instead of the inferred one; both are within the tolerance of the wanted delta
+            if !dense {
+                slack += to_f64(s).abs() * (t.tol.0 as f64 / t.tol.1 as f64);
+            }
+        }
+        (sum, slack, active)
+    }
+
+    /// Fonts mixing simple glyphs WITH and WITHOUT variation data and composites whose components alternate between
+    /// them (both orders, optional component-offset deltas), drawn unscaled at many locations in shuffled sequences, with
+    /// fresh memory or through ONE reused caller-provided buffer, in both path styles (two scaler implementations).
+    /// Expected = base outline + sum scalar * delta; nothing for glyphs without data.
     pub fn draw_part(rng: &mut Rng, st: &mut Stats, thorough: bool) {
+        use skrifa::outline::pen::PathStyle;
         finding_1_repro(st);
         let nfonts = if thorough { 600 } else { 120 };
+        let mut membuf = vec![0u8; 1 << 18];
         for fi in 0..nfonts {
             let axis_count = rng.range(1, 2) as usize;
-            let nglyphs = rng.range(1, 3) as usize;
+            let nsimple = rng.range(2, 4) as usize;
             let mut glyphs: Vec<GlyphIn> = vec![];
-            while glyphs.len() < nglyphs {
-                let g = if fi % 3 == 1 { sparse_word_glyph(rng, axis_count, fi % 12 == 1, false) } else { random_glyph(rng, axis_count, false) };
-                // contours of at least 3 points, coordinates and moved points inside i16
+            while glyphs.len() < nsimple {
+                let mut g = if fi % 3 == 1 { sparse_word_glyph(rng, axis_count, fi % 12 == 1 && glyphs.is_empty(), false) } else { random_glyph(rng, axis_count, false) };
+                // contours of at least 3 points
                 let mut start = 0;
                 let mut ok = true;
                 for &e in &g.ends[..g.ends.len() - 4] {
@@ -1774,14 +1830,63 @@ mod c10_draw {
                     }
                     start = e + 1;
                 }
-                if ok {
-                    glyphs.push(g);
+                if !ok {
+                    continue;
                 }
+                // glyphs without any variation data, mixed with glyphs that have some
+                if rng.chance(1, 3) || (fi % 2 == 0 && glyphs.len() == 1 && !glyphs[0].tuples.is_empty()) {
+                    g.tuples.clear();
+                }
+                glyphs.push(g);
+            }
+            let mut comps: Vec<Option<Vec<(usize, i64, i64)>>> = vec![None; nsimple];
+            let ncomposite = rng.range(0, 2) as usize;
+            for _ in 0..ncomposite {
+                let nc = rng.range(2, 3) as usize;
+                // alternate varying / non-varying children when both kinds exist, in either order
+                let with: Vec<usize> = (0..nsimple).filter(|i| !glyphs[*i].tuples.is_empty()).collect();
+                let without: Vec<usize> = (0..nsimple).filter(|i| glyphs[*i].tuples.is_empty()).collect();
+                let first_varies = rng.chance(1, 2);
+                let cs: Vec<(usize, i64, i64)> = (0..nc)
+                    .map(|k| {
+                        let pool = if with.is_empty() || without.is_empty() || rng.chance(1, 5) {
+                            (0..nsimple).collect::<Vec<_>>()
+                        } else if (k % 2 == 0) == first_varies {
+                            with.clone()
+                        } else {
+                            without.clone()
+                        };
+                        (*rng.pick(&pool), rng.range(-300, 300), rng.range(-300, 300))
+                    })
+                    .collect();
+                let mut coords: Vec<(i64, i64)> = cs.iter().map(|c| (c.1, c.2)).collect();
+                coords.extend([(0, 0), (rng.range(200, 900), 0), (0, 0), (0, 0)]);
+                let ends: Vec<usize> = (0..nc + 4).collect();
+                let ntup = if rng.chance(1, 2) { 0 } else { rng.range(1, 2) as usize };
+                let tuples: Vec<TupleIn> = (0..ntup)
+                    .map(|_| {
+                        let tents: Vec<_> = loop {
+                            let t: Vec<_> = (0..axis_count).map(|_| random_tent(rng)).collect();
+                            if t.iter().any(|x| x.0 != 0) {
+                                break t;
+                            }
+                        };
+                        let mut raw: Vec<(i64, i64)> = (0..nc).map(|_| (rng.range(-80, 80), rng.range(-80, 80))).collect();
+                        raw.extend([(0, 0), (rng.range(-30, 30), 0), (0, 0), (0, 0)]);
+                        let deltas = raw.iter().map(|d| GlyphDelta::required(d.0 as i16, d.1 as i16)).collect();
+                        TupleIn { tents, raw, deltas, tol: (0, 1) }
+                    })
+                    .collect();
+                glyphs.push(GlyphIn { coords, ends, tuples });
+                comps.push(Some(cs));
             }
             let key = format!("draw:seed-font-{}", fi);
             st.evaluations += 1;
             st.count("draw.fonts");
-            let bytes = match build_font(&glyphs, axis_count) {
+            st.add("draw.glyphs_without_variation_data", glyphs.iter().filter(|g| g.tuples.is_empty()).count() as u64);
+            st.add("draw.glyphs_with_variation_data", glyphs.iter().filter(|g| !g.tuples.is_empty()).count() as u64);
+            st.add("draw.composite_glyphs", ncomposite as u64);
+            let bytes = match build_font(&glyphs, &comps, axis_count) {
                 Ok(b) => b,
                 Err(e) => {
                     st.count("draw.font_build_failed");
@@ -1809,20 +1914,31 @@ mod c10_draw {
                     }
                 }
             }
+            let reuse_memory = fi % 2 == 0;
+            st.count(if reuse_memory { "draw.fonts_reused_memory_buffer" } else { "draw.fonts_fresh_memory" });
             let nloc = if thorough { 40 } else { 24 };
+            let mut prev_had_data = false;
             for li in 0..nloc {
                 let loc: Vec<i16> = (0..axis_count).map(|i| if rng.chance(1, 6) { rng.range(-16384, 16384) as i16 } else { *rng.pick(&cand[i]) }).collect();
                 let locf: Vec<F2Dot14> = loc.iter().map(|b| F2Dot14::from_bits(*b)).collect();
-                for (gi, g) in glyphs.iter().enumerate() {
+                let mut order: Vec<usize> = (0..glyphs.len()).collect();
+                rng.shuffle(&mut order);
+                for gi in order {
+                    let g = &glyphs[gi];
                     st.evaluations += 1;
                     st.count("draw.draws");
                     let Some(glyph) = og.get(GlyphId::new(gi as u32)) else {
                         st.oracle_failure(json!({"key": key, "glyph": gi, "what": "outline glyph missing"}));
                         continue;
                     };
+                    let style = if rng.chance(1, 2) { PathStyle::FreeType } else { PathStyle::HarfBuzz };
                     let mut pen = Pts::default();
                     let res = catch(std::panic::AssertUnwindSafe(|| {
-                        glyph.draw(DrawSettings::unhinted(Size::unscaled(), LocationRef::new(&locf)), &mut pen).map(|_| ()).map_err(|e| format!("{e}"))
+                        let mut ds = DrawSettings::unhinted(Size::unscaled(), LocationRef::new(&locf)).with_path_style(style);
+                        if reuse_memory {
+                            ds = ds.with_memory(Some(&mut membuf[..]));
+                        }
+                        glyph.draw(ds, &mut pen).map(|_| ()).map_err(|e| format!("{e}"))
                     }));
                     match res {
                         Ok(Ok(())) => {}
@@ -1831,55 +1947,63 @@ mod c10_draw {
                             continue;
                         }
                     }
-                    // exact reference
-                    let n = g.coords.len();
-                    let npts = n - 4;
-                    let mut sum: Vec<(Fr, Fr)> = vec![(Fr::int(0), Fr::int(0)); n];
-                    let mut active = 0;
-                    for t in &g.tuples {
-                        let Some(s) = tent_scalar(&t.tents, &loc) else { continue };
-                        active += 1;
-                        let retained: Vec<Option<(i64, i64)>> = t.deltas.iter().map(|d| d.required.then_some((d.x as i64, d.y as i64))).collect();
-                        // what the compiled table means: all-required tuples are stored densely; otherwise the
-                        // writer may still store everything (dense smaller) — stored values equal the inputs either way,
-                        // and for omitted points the meaning is the inference from the retained ones
-                        let inf = infer_all(&g.coords, &retained, &g.ends);
-                        let dense = t.deltas.iter().all(|d| d.required);
-                        for i in 0..n {
-                            let d = if dense || t.deltas[i].required { (Fr::int(t.deltas[i].x as i128), Fr::int(t.deltas[i].y as i128)) } else { inf[i] };
-                            sum[i] = (sum[i].0.add(s.mul(d.0)), sum[i].1.add(s.mul(d.1)));
+                    // exact reference: (default point, exact delta) per emitted point, and the allowed difference
+                    let mut expect: Vec<((i64, i64), (Fr, Fr))> = vec![];
+                    let (slack, active);
+                    match &comps[gi] {
+                        None => {
+                            let (sum, sl, ac) = exact_sum(g, &loc, true);
+                            for i in 0..g.coords.len() - 4 {
+                                expect.push((g.coords[i], sum[i]));
+                            }
+                            slack = sl;
+                            active = ac;
+                        }
+                        Some(cs) => {
+                            let (osum, osl, oac) = exact_sum(g, &loc, false);
+                            let mut sl = if oac > 0 { osl } else { 0.0 };
+                            let mut ac = oac;
+                            let mut child_slack: f64 = 0.0;
+                            for (ci, c) in cs.iter().enumerate() {
+                                let child = &glyphs[c.0];
+                                let (sum, csl, cac) = exact_sum(child, &loc, true);
+                                ac += cac;
+                                child_slack = child_slack.max(csl);
+                                for i in 0..child.coords.len() - 4 {
+                                    expect.push(((child.coords[i].0 + c.1, child.coords[i].1 + c.2), (sum[i].0.add(osum[ci].0), sum[i].1.add(osum[ci].1))));
+                                }
+                                if child.tuples.is_empty() {
+                                    st.count("draw.component_without_data");
+                                } else {
+                                    st.count("draw.component_with_data");
+                                }
+                            }
+                            sl += child_slack;
+                            slack = sl;
+                            active = ac;
                         }
                     }
                     if active > 0 {
                         st.count("draw.draws_with_active_tuples");
                     }
-                    if pen.0.len() != npts || pen.1 != 0 {
+                    if g.tuples.is_empty() && comps[gi].is_none() {
+                        st.count(if prev_had_data { "draw.no_data_glyph_drawn_after_glyph_with_active_deltas" } else { "draw.no_data_glyph_drawn" });
+                    }
+                    prev_had_data = active > 0;
+                    if pen.0.len() != expect.len() || pen.1 != 0 {
                         st.count("draw.unexpected_path_shape");
-                        st.oracle_failure(json!({"key": key, "glyph": gi, "loc": loc, "what": "path has unexpected shape", "points": pen.0.len(), "expected": npts}));
+                        st.oracle_failure(json!({"key": key, "glyph": gi, "loc": loc, "what": "path has unexpected shape", "points": pen.0.len(), "expected": expect.len()}));
                         continue;
                     }
-                    // dense-or-sparse ambiguity: when the writer stores a tuple densely although some deltas are optional,
-                    // the optional points carry their own (rounded) input delta instead of the inferred one; both are
-                    // within the tolerance of the wanted delta, so allow |tol| * scalar slack per such tuple.
-                    let mut slack = 0.5 + 0.02;
-                    for t in &g.tuples {
-                        if let Some(s) = tent_scalar(&t.tents, &loc) {
-                            // 16.16 arithmetic: the scalar is rounded per axis (<= 2^-17 each, relative to the delta) and so is the product
-                            let maxd = t.deltas.iter().map(|d| (d.x as f64).abs().max((d.y as f64).abs())).fold(0.0, f64::max);
-                            slack += maxd * (axis_count as f64 + 1.0) / 65536.0;
-                            if !t.deltas.iter().all(|d| d.required) {
-                                slack += to_f64(s).abs() * (t.tol.0 as f64 / t.tol.1 as f64);
-                            }
-                        }
-                    }
-                    for i in 0..npts {
-                        let ex = g.coords[i].0 as f64 + to_f64(sum[i].0);
-                        let ey = g.coords[i].1 as f64 + to_f64(sum[i].1);
+                    for (i, (base, d)) in expect.iter().enumerate() {
+                        let ex = base.0 as f64 + to_f64(d.0);
+                        let ey = base.1 as f64 + to_f64(d.1);
                         let (dx, dy) = (pen.0[i].0 as f64 - ex, pen.0[i].1 as f64 - ey);
                         if dx.abs() > slack || dy.abs() > slack {
                             // finding F-C10-1: an active tuple none of whose deltas is required is written as
                             // "all points" without delta data; skrifa then drops every delta of the glyph
-                            let f1 = g.tuples.iter().any(|t| t.deltas.iter().all(|d| !d.required))
+                            let f1 = comps[gi].is_none()
+                                && g.tuples.iter().any(|t| t.deltas.iter().all(|d| !d.required))
                                 && pen.0.iter().zip(&g.coords).all(|(a, b)| (a.0 as f64, a.1 as f64) == (b.0 as f64, b.1 as f64));
                             let fkey = if f1 { FINDING_1.to_string() } else { format!("{}:glyph{}:loc{:?}", key, gi, loc) };
                             if f1 {
@@ -1892,15 +2016,17 @@ mod c10_draw {
                             st.oracle_failure(json!({
                                 "key": fkey,
                                 "font": key, "glyph": gi, "loc": loc, "point": i,
-                                "what": "drawn point differs from default + sum(scalar * delta) by more than the final rounding",
-                                "drawn": [pen.0[i].0, pen.0[i].1], "expected": [ex, ey], "default": [g.coords[i].0, g.coords[i].1],
+                                "what": "drawn point differs from base outline + sum(scalar * delta) by more than the final rounding",
+                                "drawn": [pen.0[i].0, pen.0[i].1], "expected": [ex, ey], "base": [base.0, base.1],
+                                "composite": format!("{:?}", comps[gi]), "glyph_has_variation_data": !g.tuples.is_empty(),
+                                "reused_memory_buffer": reuse_memory, "path_style": format!("{:?}", style),
                                 "tuples": g.tuples.iter().map(|t| json!({"tents": format!("{:?}", t.tents), "all_zero": t.raw.iter().all(|d| *d == (0, 0)), "required": t.deltas.iter().filter(|d| d.required).count()})).collect::<Vec<_>>(),
                             }));
                             break;
                         }
                     }
-                    if li == 0 && gi == 0 {
-                        st.nontrivial(&format!("{}:{:?}", key, loc));
+                    if li == 0 {
+                        st.nontrivial(&format!("{}:{}:{:?}", key, gi, loc));
                     }
                 }
             }
